@@ -37,10 +37,8 @@ def compare(ctx, key, got, want, where, what, sample=False):
 
 
 def exc_name(r):
-    exc = r.node.exc
-    if isinstance(exc, ast.Call):
-        exc = exc.func
-    return getattr(exc, "id", getattr(exc, "attr", None))
+    from xfabsa.symeval import raised_name
+    return raised_name(r)
 
 
 def analyse_arctan2(ctx, mod, short):
